@@ -695,6 +695,12 @@ def run(ctx: Ctx, rep: Report, tier: str) -> None:
     accumulator_only_grows(ctx, rep)
     no_dedup_collection(ctx, rep)
     classifier_ignores_values(ctx, rep)
+    # R12.16 an ACL built from text with group_by goes through Acl.group: every parsed line is placed in a block (C15 R15.1)
+    from .c15 import r15_1
+
+    sub15 = Report("C12")
+    r15_1(ctx, sub15)
+    rep.absorb(sub15, "R12.16")
     # R12.14 premises: a builder parses under the settings the object has NOW (no snapshot of them outlives a change:
     # C17 R17.6), and assigning a text always parses it (every normal path of a line setter stores what the other paths
     # store: C01 R01.7 - a "same text as last time" shortcut skips lines that were edited away since)
